@@ -1,16 +1,20 @@
 """C19 rule set (see DESIGN.md section 5)."""
 from rules.search import r19_1, r19_2, r19_3, r10_3
 from rules.builder import r01_1
-from rules.stream import r07_3
+from rules.stream import r07_3, r07_1
+from rules.search import r05_6
+from rules.prefilter import r05_3
 
 LEVEL = 'other'
-RULES = [('R19.1', r19_1), ('R19.2', r19_2), ('R19.3', r19_3), ('R10.3', r10_3), ('R01.1', r01_1), ('R07.3', r07_3)]
+RULES = [('R19.1', r19_1), ('R19.2', r19_2), ('R19.3', r19_3), ('R10.3', r10_3), ('R01.1', r01_1), ('R07.3', r07_3), ('R05.6', r05_6), ('R05.3', r05_3), ('R07.1', r07_1)]
 EXPLANATION = """R19.1 in both drivers the cursor is only increased inside the loop (+1, or a jump guarded by i > cursor), and every CFG cycle
 through the next_state call passes a strict increase: at most one transition per cursor value, bounded by input.end() (R10.3 loop
 guard); the stream scan performs one transition per buffered byte (R07.3). R19.2 DFA::next_state and everything it calls is loop-free
 (one class lookup, one table lookup, no failure traversal). R19.3 each NFA next_state has one failure loop (plus bounded iterator
 loops), whose only loop-carried variable is sid, every repetition replaces sid by the current state's failure link, and (noncontiguous)
-the loop repeats only on FAIL. R01.1 the start state gets its self loop before failure links are computed (the failure walk ends at
+the loop repeats only on FAIL. R05.6/R05.3 the prefilter scans only cursor..input.end() and returns absolute candidates no earlier than the byte it found minus its
+offset (a relative or unbounded candidate makes every start-state visit rescan). R07.1 the stream buffer's capacity is a multiple
+(>= 2) of the retained tail, so refills amortise. R01.1 the start state gets its self loop before failure links are computed (the failure walk ends at
 the start state)."""
 NOT_DECIDED = """The amortised bound 'failure traversals <= transitions': it follows from 'every failure link points to a strictly shallower state', an invariant of the data computed by fill_failure_transitions, not of code shape; the cost of the prefilter's own scanning."""
 CLAIM = """Static decision of the structural half of linear-time search: strict cursor progress on every cycle of both drivers, a loop-free DFA
